@@ -104,7 +104,7 @@ func bufprop(r *simkit.Run, prop string) {
 	}
 	h := simkit.NewHash()
 	nEx := rapid.IntRange(1, 4).Draw(rt, "exchanges")
-	spills, retries, overReq, overResp, readFaults, diskFaults, bodiless := 0, 0, 0, 0, 0, 0, 0
+	spills, retries, overReq, overResp, readFaults, diskFaults, bodiless, aborts := 0, 0, 0, 0, 0, 0, 0, 0
 	var samples []string
 
 	for x := 0; x < nEx; x++ {
@@ -161,6 +161,7 @@ func bufprop(r *simkit.Run, prop string) {
 			sc.readHow = rapid.IntRange(0, 2).Draw(rt, "read-how")
 			sc.mutate = rapid.Bool().Draw(rt, "mutate")
 			sc.early = rapid.IntRange(0, 5).Draw(rt, "early-hints") == 0
+			sc.abort = rapid.IntRange(0, 9).Draw(rt, "handler-aborts") == 0
 			sc.status = rapid.SampledFrom([]int{0, 0, 200, 200, 201, 204, 301, 304, 404, 500, 502, 503, 504}).Draw(rt, "status")
 			if rapid.Bool().Draw(rt, "resp-hdr") {
 				sc.headers.Add("X-Multi-Resp", "a")
@@ -270,6 +271,12 @@ func bufprop(r *simkit.Run, prop string) {
 		}
 		if len(ex.seen) > 0 && len(fds) > 0 {
 			note("temp-file-left", "%s: after the exchange completed the process still holds spill files open: %v", where, fds)
+		}
+		if ex.panicked == http.ErrAbortHandler {
+			// the handler aborted: the abort must reach the server (it did), and nothing may be left behind (checked above)
+			aborts++
+			r.Fault("handler-abort")
+			continue
 		}
 		if ex.panicked != nil {
 			note("client-writer-misuse", "%s: the client's ResponseWriter was misused: %v", where, ex.panicked)
@@ -462,6 +469,7 @@ func bufprop(r *simkit.Run, prop string) {
 	r.ProbeN("bodiless-response-kind", bodiless)
 	r.ProbeN("reader-fault-hit", readFaults)
 	r.ProbeN("disk-fault-hit", diskFaults)
+	r.ProbeN("handler-aborted", aborts)
 	r.Sample(func() any { return map[string]any{"config": cfg.String(), "exchanges": samples} })
 }
 
